@@ -1853,6 +1853,10 @@ func (m *newSessionTicketMsg) marshal() (x []byte) {
 	x[1] = uint8(length >> 16)
 	x[2] = uint8(length >> 8)
 	x[3] = uint8(length)
+	x[4] = uint8(m.lifetimeHint >> 24)
+	x[5] = uint8(m.lifetimeHint >> 16)
+	x[6] = uint8(m.lifetimeHint >> 8)
+	x[7] = uint8(m.lifetimeHint)
 	x[8] = uint8(ticketLen >> 8)
 	x[9] = uint8(ticketLen)
 	copy(x[10:], m.ticket)
